@@ -606,6 +606,7 @@ func constStringOf(p *Prog, pkg, name string) string {
 }
 
 var c18Canaries = []Canary{
+	{Name: "r5-offered-authorization-dropped", ExpectKey: "C18.R4#authorization-dropped-only-if-own", Edits: []Edit{{File: "lfsapi/auth.go", Find: "\t\t\tif credWrapper.Creds != nil {\n\t\t\t\treq.Header.Del(\"Authorization\")", Repl: "\t\t\treq.Header.Del(\"Authorization\")\n\t\t\tif credWrapper.Creds != nil {"}}},
 	{Name: "r4-redirect-drops-body", ExpectKey: "C18.R7#redirect:carries-Body", Edits: []Edit{{File: "lfshttp/client.go", Find: "\tnewReq.Body = req.Body\n", Repl: "\tif req.Method != \"POST\" {\n\t\tnewReq.Body = req.Body\n\t}\n"}}},
 	{Name: "rename-operation-tag", ExpectKey: "C18.R1#batchRequest:required(operation)", Edits: []Edit{{File: "tq/api.go", Find: "`json:\"operation\"`", Repl: "`json:\"op\"`"}}},
 	{Name: "size-renamed", ExpectKey: "C18.R1", Edits: []Edit{{File: "tq/transfer.go", Find: "	Size          int64        `json:\"size\"`", Repl: "	Size          int64        `json:\"length\"`"}}},
